@@ -167,6 +167,35 @@ func c19Records(tier string, seed int64, idx int, scratch string) rt.CaseResult 
 		}
 		c.AddDistinct("dec/" + kc.name + "/" + sc.name)
 	}
+	// several records at once: each must decode to itself, whatever its neighbours are
+	// (an empty key next to a non-empty one, a short record after a long one, ...)
+	for i := 0; i < n/20; i++ {
+		p := &recProvider{data: map[string][]byte{}}
+		want := map[string]verif.File{}
+		m := 2 + rng.Intn(6)
+		for j := 0; j < m; j++ {
+			kc := keyClasses[rng.Intn(len(keyClasses))]
+			f := verif.File{Key: kc.v(rng), Seq: verif.Seq(seqClasses[rng.Intn(len(seqClasses))].v(rng)), TxId: randUUID(rng), ContentId: randUUID(rng)}
+			if rng.Intn(3) == 0 {
+				f.Key = ""
+			}
+			p.data["file/"+f.ContentId] = specEncode(f)
+			want[f.ContentId] = f
+		}
+		c.Evals++
+		files, err := verif.NewFileRepo(p).GetAll(context.Background())
+		if err != nil || len(files) != len(want) {
+			c.Violate("decode-many-count", fmt.Sprintf("GetAll of %d records returned %d (%v)", len(want), len(files), err), nil)
+			return c
+		}
+		for _, f := range files {
+			if w := want[f.ContentId]; f != w {
+				c.Violate("decode-mismatch among-several-records", fmt.Sprintf("GetAll of %d records: record %s decoded as %s", len(want), descFile(w), descFile(f)), map[string]any{"want": descFile(w), "got": descFile(f), "all": descFiles(files)})
+				return c
+			}
+		}
+		c.AddDistinct(fmt.Sprintf("dec-many/%d", m))
+	}
 	if idx == 0 {
 		f := verif.File{Key: "key", Seq: 0x0102030405060708, TxId: "00112233-4455-6677-8899-aabbccddeeff", ContentId: "ffeeddcc-bbaa-9988-7766-554433221100"}
 		c.Sample = map[string]any{"record": descFile(f), "layout_bytes": hex.EncodeToString(specEncode(f))}
